@@ -34,8 +34,9 @@ class Conn:
     """A virtual websocket connection served by web.start_client"""
 
     def __init__(self, rig, name, addr="10.0.0.1", send_delay=None, rate_limiter=None,
-                 message_timeout=1800):
+                 message_timeout=1800, storage=None):
         self.rig = rig
+        self.storage = storage
         self.name = name
         self.addr = addr
         self.inbox = asyncio.Queue()
@@ -96,7 +97,7 @@ class Conn:
         async def runner():
             try:
                 await web.start_client(
-                    self.rig.storage,
+                    self.storage or self.rig.storage,
                     self.ws_send,
                     self.ws_recv,
                     self.ws_close,
@@ -454,7 +455,10 @@ def run(coro_fn, *a, **k):
             for t in pending:
                 t.cancel()
             if pending:
-                loop.run_until_complete(asyncio.gather(*pending, return_exceptions=True))
+                done, still = loop.run_until_complete(asyncio.wait(pending, timeout=5))
+                if still and os.environ.get("VERIF_DEBUG"):
+                    for t in still:
+                        sys.stderr.write("task survived cancellation: %r\n" % (t,))
         except Exception:
             pass
         loop.close()
